@@ -404,11 +404,11 @@ PROPS["C17"] = dict(
     verus=["converters", "candle_methods", "ohlcv"], kani=["renko"],
     claim=("CollapseTimeframe (instantiated at Candle) is verified to emit exactly one candle on every period-th input and to aggregate with `+`, whose "
            "contract is first open / highest high / lowest low / last close / summed volume; HeikinAshi follows its open/close recursion and keeps an ordered, "
-           "positive candle ordered and positive; RenkoOutput's iterator yields contiguous, equally sized, one-directional bricks; Renko::next (over reals) "
+           "positive candle ordered and positive; RenkoOutput's iterator (next, nth - through which Iterator::skip goes -, size_hint, count) yields contiguous, equally sized, one-directional bricks and never a brick beyond the emission; Renko::next (over reals) "
            "emits at least one brick exactly when the price has reached the next boundary, the count being the number of whole bricks, the new bounds the last "
            "brick, the bricks carrying the volume consumed since the previous emission. The float-level boundary case (quotient truncating to 0) is decided "
            "bit-precisely by Kani: one concrete boundary price in the quick tier, symbolic state and price (loop-free, complete) in the thorough tier."),
-    assumptions=[REALS + " for the Verus part", "Sequence::collapse_timeframe (windows/step_by/map/collect, outside the Verus subset) is not under a deductive contract: one bounded Kani harness (4 candles, size 2, continuous and non-continuous) checks it against the aggregation rule; RenkoOutput::{nth,last} (`mut self`) are not under contract",
+    assumptions=[REALS + " for the Verus part", "Sequence::collapse_timeframe (windows/step_by/map/collect, outside the Verus subset) is not under a deductive contract: one bounded Kani harness (4 candles, size 2, continuous and non-continuous) checks it against the aggregation rule; RenkoOutput::last (`mut self`, outside the Verus subset) is not under contract (nth is: it yields brick pos + n of the same emission or exhausts the iterator)",
                  "prices are positive (input_ok), as in the property's valid-candle streams"],
 )
 PROPS["C18"] = dict(
